@@ -51,11 +51,11 @@ def run(ctx):
         ctx.tlc_expect_ok("treeorder", "TreeLoad", "TreeLoad_mc3.cfg", timeout=1200)
     # 2. spec -> code: predicted plans vs. the real loader / stream handler / requester
     if thorough:
-        emit_and_replay(ctx, "TreeLoadGen_q.cfg", test_env={"VERIF_APPLY_EVERY": 2, "VERIF_HANDLER_EVERY": 60})
+        emit_and_replay(ctx, "TreeLoadGen_q.cfg", test_env={"VERIF_APPLY_EVERY": 2, "VERIF_HANDLER_EVERY": 250})
         emit_and_replay(ctx, "TreeLoadGen_sim.cfg", simulate=120, depth=9, timeout=3000,
-                        test_env={"VERIF_APPLY_EVERY": 3, "VERIF_HANDLER_EVERY": 150})
+                        test_env={"VERIF_APPLY_EVERY": 3, "VERIF_HANDLER_EVERY": 400})
     else:
-        emit_and_replay(ctx, "TreeLoadGen_q.cfg", test_env={"VERIF_APPLY_EVERY": 9, "VERIF_HANDLER_EVERY": 500})
+        emit_and_replay(ctx, "TreeLoadGen_q.cfg", test_env={"VERIF_APPLY_EVERY": 9, "VERIF_HANDLER_EVERY": 1400})
     # 3. random larger histories, byte limits around every cumulative boundary
     ctx.go_test("./treeorder", run="TestRandomLoad$", timeout=3000,
                 env={"VERIF_RUNS": 120 if thorough else 10, "VERIF_MAX_CHANGES": 24 if thorough else 14})
